@@ -53,7 +53,7 @@ def gen_schema(rng):
             if ea == eb and rng.random() < 0.7: req = False          # a required self reference can hardly be populated
             r = {'kind': kind, 'sym': False,
                  'a': S(ea, req=req, casc=True if rng.random() < 0.03 else None),
-                 'b': S(eb, coll=True, casc=rng.choice([None, None, None, True, True, False]))}
+                 'b': S(eb, coll=True, casc=rng.choice([None, None, None, False, False] if req else [None, None, True, True, True, False]))}
             if rng.random() < 0.5: r['a'], r['b'] = r['b'], r['a']
         elif kind == 'm2m':
             r = {'kind': kind, 'sym': False, 'a': S(ea, coll=True, casc=True if rng.random() < 0.03 else None), 'b': S(eb, coll=True)}
@@ -247,12 +247,12 @@ def gen_prog(rng, w):
         for key in w.ent_attrs[e]:
             s = w.side(key)
             if s['coll']:
-                if rng.random() < 0.5: vals.append([list(key), [rng.randrange(1000) for _ in range(rng.choice([1, 1, 2]))]])
-            elif s['req'] or rng.random() < 0.55: vals.append([list(key), rng.randrange(1000)])
+                if rng.random() < 0.65: vals.append([list(key), [rng.randrange(1000) for _ in range(rng.choice([1, 1, 2, 3]))]])
+            elif s['req'] or rng.random() < 0.75: vals.append([list(key), rng.randrange(1000)])
             else: vals.append([list(key), None])
         prog.append(['create', e, vals])
         prog.append(['flush'])
-    for _ in range(rng.choice([0, 1, 2, 3, 5])):
+    for _ in range(rng.choice([0, 0, 0, 1, 2, 3])):
         prog.append(['link', rng.randrange(1000), rng.randrange(1000), rng.randrange(1000)])
     return prog
 
@@ -469,7 +469,11 @@ def _check_history(ctx, w, schema, prog, plan, state0, report):
                 if outside and not viol:
                     q, key, p = outside[0]
                     viol = ('deleted-despite-required-dependent:' + w.relkind(key), {'step': st, 'closure': C, 'requires': [q, list(key), p]})
+                ctx.count('delete-ok:closure-size:%s' % (len(C) if len(C) < 4 else '4+'))
+                before_links = sum(len(held(so, key)) for i, so in enumerate(state) if so['alive'] and i not in C for key in w.ent_attrs[so['ent']])
                 state = spec_apply(w, state, C)
+                after_links = sum(len(held(so, key)) for i, so in enumerate(state) if so['alive'] for key in w.ent_attrs[so['ent']])
+                ctx.count('delete-ok:links-of-survivors-cleared:%s' % ('0' if before_links == after_links else '1+'))
             expect_dead = sorted(i for i, so in enumerate(state) if not so['alive'])
             if rec['dead'] != expect_dead and not viol:
                 viol = ('cascade-closure-differs', {'step': st, 'deleted': rec['dead'], 'closure-says': expect_dead})
@@ -502,7 +506,7 @@ def _check_history(ctx, w, schema, prog, plan, state0, report):
                 elif rec['err'] in ('RecursionError', 'AssertionError', 'OperationWithDeletedObjectError'):
                     cyc = cascade_cycle(w, state, C)
                     ctx.count('cascade-cycle-failure:%s:%s' % (rec['err'], 'cycle' if cyc else 'NO-CYCLE'))
-                    if not viol: viol = ('cascade-cycle:%s' % rec['err'] if cyc else 'delete-raised:%s' % rec['err'], {'step': st, 'closure': C})
+                    if not viol: viol = ('cascade-cycle-raises' if cyc else 'delete-raised:%s' % rec['err'], {'step': st, 'closure': C, 'raised': rec['err']})
                 elif not viol:
                     viol = ('delete-raised:%s' % rec['err'], {'step': st, 'closure': C})
                 break
@@ -638,8 +642,14 @@ def shrink(ctx, schema, prog, plan, key):
     return schema, prog, plan
 
 
+REPORTED = set()
+
+
 def report(ctx, schema, prog, plan, v):
     key, detail = v
+    if key in REPORTED:           # already shrunk and reported in this run
+        ctx.count('violation-seen-again:' + key); return
+    REPORTED.add(key)
     s, p, pl = shrink(ctx, schema, prog, plan, key)
     v2 = violation_of(ctx, s, p, pl)
     if v2 is not None and v2[0] == key: detail = v2[1]
@@ -648,7 +658,7 @@ def report(ctx, schema, prog, plan, v):
                   {'schema': s, 'prog': p, 'plan': pl}, observed=detail, expected=EXPECT.get(key.split(':')[0]), key=key)
 
 WHAT = {
-    'cascade-cycle': 'deleting an object whose cascade closure contains a cycle raises instead of deleting the closure',
+    'cascade-cycle-raises': 'deleting an object whose cascade closure contains a cycle raises (RecursionError / AssertionError) instead of deleting the closure',
     'failed-delete-changed-session': 'a delete that raised left the session changed',
     'required-one-to-one-cascade-refused': 'an object whose Required one-to-one attribute has cascade_delete=True can never be deleted: the cascade child refuses because the object being deleted still requires it',
     'deleted-despite-required-dependent': 'a delete succeeded although an object outside the cascade closure requires a deleted object',
@@ -661,7 +671,7 @@ WHAT = {
     'bulk-refused-changed-database': 'a refused bulk delete changed the database',
 }
 EXPECT = {
-    'cascade-cycle': 'the closure is deleted (or the call refuses and changes nothing)',
+    'cascade-cycle-raises': 'the closure is deleted',
     'failed-delete-changed-session': 'statuses, loaded values and the save queue are what they were before the call',
 }
 
@@ -670,8 +680,10 @@ EXPECT = {
 def gen_plan(rng, w, state0):
     n = len(state0)
     plan = []
+    parents = [i for i in range(n) if any(w.side(key)['casc'] and held(state0[i], key) for key in w.ent_attrs[state0[i]['ent']])]
     for _ in range(rng.choice([1, 1, 2, 2, 3, 4])):
-        if rng.random() < 0.8: plan.append(['obj', rng.randrange(n)])
+        if parents and rng.random() < 0.5: plan.append(['obj', rng.choice(parents)])          # an object with cascade children
+        elif rng.random() < 0.8: plan.append(['obj', rng.randrange(n)])
         else:
             e = rng.randrange(w.schema['nent'])
             ids = sorted(set(rng.randrange(n) for _ in range(rng.choice([1, 2, 3]))))
@@ -738,7 +750,14 @@ def bulk_case(ctx, rng, schema, prog):
         stmts = []
         for _ in range(rng.choice([1, 1, 2, 3])):
             e = rng.randrange(schema['nent'])
-            ids = sorted(set(rng.randrange(n) for _ in range(rng.choice([1, 1, 2, 3, n]))))
+            ids = sorted(set(rng.randrange(n) for _ in range(rng.choice([1, 1, 2, 3, n, n]))))
+            if rng.random() < 0.5:           # aim at rows that are referenced
+                refd = sorted(set(v for so in state0 for _, _, v in so['refs'] if v is not None))
+                hard = sorted(set(v for so in state0 for r, sd, v in so['refs'] if v is not None and w.side((r, bool(sd)))['req']
+                                  and not w.side(w.rev((r, bool(sd))))['casc']))
+                if hard and rng.random() < 0.6: refd = hard          # rows referenced through a key without ON DELETE action
+                if refd: ids = sorted(set(rng.sample(refd, min(len(refd), rng.choice([1, 2])))))
+                if ids: e = w.ents[ids[0]]
             stmts.append([e, ids])
         inp = {'schema': schema, 'prog': prog, 'bulk': stmts}
         recs = []
@@ -860,7 +879,7 @@ def run(ctx):
     ctx.extra['delete_variant'] = 're-entrancy guard present' if guard_present() else 'no re-entrancy guard (cascade cycles through collections recurse until RecursionError)'
     linked_tie(ctx)
     witnesses(ctx)
-    nhist = ctx.scale(160, 4000)
+    nhist = ctx.scale(400, 6000)
     for h in range(nhist):
         schema = gen_schema(rng)
         try:
